@@ -174,7 +174,7 @@ META = {
             "two counterparts A and B on a generic struct: field 0 with one of 9 instruction forms dedicated to A x 9 dedicated to B x with / without a default instruction, field 1 with one of 5 forms per side (rename, bare parent, parameterised parent, ghost_ref), 5 settings of dedicated / default ghosts, where_clause and child_parents; projected to A and to B: 40,500 pairs; plus 8 hand-written pairs (enum ghosts, literal / pattern, type_hint, ghosts with child path)"),
     "c14": ("get_data_type_attrs / Field::multiple_from_syn / Variant::multiple_from_syn (repeat state threaded through closures)",
             "an input using repeat / skip_repeat / stop_repeat expands exactly like the same input with the repetition written out",
-            "all valid placements of {none, own instruction, repeat, skip_repeat, stop_repeat, stop_repeat+repeat} over 5 struct fields x 5 carried instruction sets x 5 category filters; over 4 enum-variant fields x 4 variant shapes x permeating or not x 3 filters; over 4 variants x 4 filters; over 4 trait instructions of one name (plus one of another name) x 4 setups x 5 parameter filters"),
+            "all valid placements of {none, own instruction, repeat, skip_repeat, stop_repeat, stop_repeat+repeat} over 5 struct fields x 5 carried instruction sets x 5 category filters; over 4 enum-variant fields x 4 variant shapes x permeating or not x 3 filters; over 4 variants x 4 filters x a field-level repeat block (permeating or not) opened inside any one of the variants; over 4 trait instructions of one name (plus one of another name) x 4 setups x 5 parameter filters"),
 }
 STRUCT = {
     "c03": ("struct_init_block / struct_init_block_inner (grouping, sort, recursive descent) with everything below them",
